@@ -3,7 +3,8 @@
 construct_driver: a batch of pattern strings through six channels (microjs.regex.RegExp, regex literal, RegExp(), new RegExp(),
   "s".match(P), "s".search(P) with a string P), each script channel inside try/catch (does script code receive a SyntaxError?)
   and, on request, without (does Python receive a JSError?).  Compilation work is counted (AST nodes visited, instructions emitted).
-run_driver: one matching run of a catastrophic family with step / stack / poll counting through the guarded hook.
+run_driver: one matching run of a family under one run configuration (package API with a poll interval, or a script entry point,
+  bare or inside try/catch; deadline in hooked steps) with step / stack / poll / late-step counting through the guarded hook.
 fold_batch: case-insensitive matching of short subjects with special-casing characters through the API and six script operations.
 The drivers only record outcome codes and counts; spec/C10.tla judges."""
 import time
